@@ -178,8 +178,8 @@ impl Scenario for Close {
     fn variants(&self, tier: &str) -> Vec<Value> {
         let mut v = Vec::new();
         for who in ["client", "server"] {
-            for after in ["closeok", "closeok+eof"] {
-                if who == "server" && after == "closeok+eof" {
+            for after in ["closeok", "closeok+eof", "closeok-delayed"] {
+                if who == "server" && after != "closeok" {
                     continue;
                 }
                 for stall in [false, true] {
@@ -211,6 +211,11 @@ impl Scenario for Close {
         if p["after"] == "closeok+eof" {
             broker.close_behaviour = CloseBehaviour::CloseOkThenEof;
         }
+        let slow = p["after"] == "closeok-delayed";
+        if slow {
+            // the server takes 1.5 heartbeat intervals to answer the client's Close
+            broker.close_behaviour = CloseBehaviour::Delayed(1_500_000_000);
+        }
         if server {
             broker.pushes.push(Push::new("conn-close", vec![conn_close_frame(code, "server says bye")]).after_frames(6));
         }
@@ -225,7 +230,7 @@ impl Scenario for Close {
             broker: Box::new(broker),
             cfg,
             root: Box::new(move |ctx: Ctx| {
-                let mut conn = match open(&ctx, ConnectionOptions::default().heartbeat(0), ConnectionTuning::default()) {
+                let mut conn = match open(&ctx, ConnectionOptions::default().heartbeat(if slow { 1 } else { 0 }), ConnectionTuning::default()) {
                     Ok(c) => c,
                     Err(e) => {
                         ctx.log(format!("open -> Err({})", err_name(&e)));
@@ -469,6 +474,14 @@ impl Scenario for Death {
                 v.push(json!({"fault": fault, "at": at, "bound": 16}));
             }
         }
+        // the same faults while the client's own close is in flight (nobody waits on the consumer,
+        // so the session reaches Connection::close; the sweep covers the bytes around CloseOk)
+        let step = if thorough { 1 } else { 2 };
+        for at in (150..=300).step_by(step) {
+            for fault in ["eof", "readerr"] {
+                v.push(json!({"fault": fault, "at": at, "bound": 16, "closing": true}));
+            }
+        }
         for call in 0..(if thorough { 14 } else { 10 }) {
             v.push(json!({"fault": "writeerr", "call": call, "bound": 16}));
         }
@@ -515,7 +528,7 @@ impl Scenario for Death {
             _ => {}
         }
         let bound = p["bound"].as_u64().unwrap() as usize;
-        let drain = p["fault"] != "none";
+        let drain = p["fault"] != "none" && p["closing"] != true;
         Built { broker: Box::new(broker), cfg, root: Box::new(move |ctx: Ctx| death_session(ctx, bound, drain)) }
     }
     fn check(&self, p: &Value, o: &Outcome, _w: &World) -> Vec<(String, String)> {
@@ -574,7 +587,7 @@ impl Scenario for Death {
                 if !log.iter().any(|l| l.starts_with("chclose -> ")) {
                     v.push(("death:actor-incomplete".into(), format!("actor {} did not finish: {:?}", actor, log)));
                 }
-                if actor == "a" && fault != "none" && log.iter().any(|l| l == "consume -> Ok") && !log.iter().any(|l| l == "consumer disconnected") {
+                if actor == "a" && fault != "none" && p["closing"] != true && log.iter().any(|l| l == "consume -> Ok") && !log.iter().any(|l| l == "consumer disconnected") {
                     v.push(("death:consumer-not-terminated".into(), format!("{:?}", log)));
                 }
             }
